@@ -156,6 +156,13 @@ def run(ctx):
         if n <= 4:
             do(ctx, 'pmul_dense', [be, a, b])
         ctx.res.count('random_N%d' % n)
+    # LARGE registers: byte, word and cache-line boundaries of every packed or vectorised representation (8, 9, 16, 17, 33, 64, 65 qubits); model correspondence only
+    for n in gen.BIG:
+        for be in backends:
+            a, b = gen.rpauli(rng, n), gen.rpauli(rng, n)
+            do(ctx, 'pmul_corr', [be, a, b], nontrivial=('big', be, n))
+            do(ctx, 'chain_corr', [be, gen.rplist(rng, n, rng.randint(3, 12))], nontrivial=('bigch', be, n))
+            do(ctx, 'batch_corr', [be, gen.rplist(rng, n, 3), gen.rplist(rng, n, 2)], nontrivial=('bigb', be, n))
     for _ in range(int(150 * B)):
         n = rng.randint(1, 6)
         L = rng.randint(2, 40 if ctx.tier == 'quick' else 400)
